@@ -17,11 +17,11 @@ func init() {
 		Cases: func(tier string) int {
 			switch tier {
 			case "thorough":
-				return 1500000
+				return 8000000
 			case "race":
 				return 30000
 			}
-			return 300000
+			return 800000
 		},
 		Run:            c04Run,
 		Floor:          func(tier string) int { return 4000 },
